@@ -553,7 +553,255 @@ def s_sql_closed(rep, W, rule="S-SQL"):
            "SQL-looking string constants that are not the text of a modelled execution site: %s" % (stray or "none"))
     rep.floor(rule, "SQL execution sites", len(ss), 8)
     rep.floor(rule, "SQL statements", sum(len(s.stmts) for s in ss), 10)
+    s_uuidcodec(rep, W)
     return ss, inst
+
+
+# --------------------------------------------------------------------------- S-UUIDCODEC
+HYPHENATED = "text:hyphenated-lowercase (Uuid::to_string)"
+PARSED = "text:any-textual-form (ValueRef::as_str + Uuid::parse_str)"
+_NON_HYPHENATED = ("simple", "urn", "braced", "as_simple", "as_urn", "as_braced", "as_bytes", "to_bytes_le", "as_u128")
+
+
+def uuid_encoder_classes(W):
+    """How StoredUuid::to_sql renders an id, per success exit (error exits do not bind a value)."""
+    b = W.prog.body("<%s::StoredUuid as rusqlite::types::to_sql::ToSql>::to_sql" % WD.SQLITE) or W.prog.one(r"StoredUuid as rusqlite::.*ToSql>::to_sql$")
+    if b is None:
+        return None, None
+    out = []
+    for site, term in exits(W, b):
+        if is_error_exit(term):
+            continue
+        calls_ = [x[1] for x in P.walk(term) if x[0] == "call"]
+        if "alloc::string::ToString::to_string" in calls_ and not any(c.split("::")[-1] in _NON_HYPHENATED for c in calls_):
+            src = [x for x in P.walk(term) if x[0] == "call" and x[1] == "alloc::string::ToString::to_string"]
+            if src and src[0][3][0] == ("field", ("param", 1, "self"), "0"):
+                out.append(HYPHENATED)
+            else:
+                out.append("text:to_string(%s)" % P.show(src[0][3][0]) if src else "other")
+        else:
+            out.append("other:" + (",".join(c.split("::")[-1] for c in calls_) or P.show(term)[:60]))
+    return b, out
+
+
+def uuid_decoder_classes(W):
+    b = W.prog.one(r"StoredUuid as rusqlite::.*FromSql>::column_result$")
+    if b is None:
+        return None, None
+    out = []
+    for site, term in exits(W, b):
+        if is_error_exit(term):
+            continue
+        calls_ = [x[1] for x in P.walk(term) if x[0] == "call"]
+        if "uuid::parser::<impl uuid::Uuid>::parse_str" in calls_ and "rusqlite::types::value_ref::ValueRef::<'a>::as_str" in calls_:
+            out.append(PARSED)
+        else:
+            out.append("other:" + (",".join(c.split("::")[-1] for c in calls_) or P.show(term)[:60]))
+    return b, out
+
+
+def s_uuidcodec(rep, W, rule="S-UUIDCODEC"):
+    """Every equality the SQL statements rely on (`client_id = ?`, `parent_version_id = ?`, the PRIMARY KEY) compares the
+    TEXT the id encoder produced: the statement-level obligations (C01.KEY, S-SCOPE, C08, ..) say *which* id is bound and
+    presuppose that equal ids give equal non-NULL text and different ids different text.  So: on every success exit
+    StoredUuid::to_sql yields `self.0.to_string()` (one injective text form, never NULL -- `x = NULL` matches nothing), and
+    column_result parses the text it is given on every success exit (no value is invented for NULL / other storage classes)."""
+    eb, enc = uuid_encoder_classes(W)
+    rep.ob(rule, ("uuid", "encoder"), bool(enc) and all(c == HYPHENATED for c in enc),
+           "StoredUuid::to_sql success exits yield: %s (required on every exit: the hyphenated text of self.0 -- one injective, "
+           "non-NULL form, so that `col = ?` holds exactly for the id that was stored)" % enc, where(eb) if eb is not None else None)
+    db, dec = uuid_decoder_classes(W)
+    rep.ob(rule, ("uuid", "decoder"), bool(dec) and all(c == PARSED for c in dec),
+           "StoredUuid::column_result success exits yield: %s (required on every exit: Uuid::parse_str of the column's text)" % dec,
+           where(db) if db is not None else None)
+    # .. and every id that was stored can be read back: the decoder fails only when the column is not text or the text is not
+    # a UUID, the encoder never (ids of any version / variant are legal: a client chooses the parent of its first version)
+    for nm, b_ in (("decoder", db), ("encoder", eb)):
+        if b_ is None:
+            continue
+        bad = []
+        for site, rt, val, kind in exit_kinds(W, b_, lambda t: "err" if is_error_exit(t) else "ok"):
+            if kind != "err":
+                continue
+            okx = nm == "decoder" and any(a[0] == "VARIANT" and a[1][0] == "call" and a[1][1].endswith(("as_str", "parse_str")) and vs == frozenset(["err"])
+                                          for a, vs in val.items())
+            if not okx:
+                bad.append((exit_line(b_, site), G.show_val(val)[:140]))
+        rep.ob(rule, ("uuid", nm, "fails-only-on-unparsable-text"), not bad,
+               "%s error exits under other conditions than as_str / parse_str failing: %s" % (nm, bad[:2] or "none"),
+               where(b_, line=bad[0][0]) if bad else where(b_), nontrivial=False)
+
+
+# --------------------------------------------------------------------------- S-MEMATOMIC
+def s_mematomic(rep, W, rule="S-MEMATOMIC"):
+    """The in-memory back end has no rollback: whatever a method has written before it fails stays written (the SQLite
+    transaction is rolled back when it is dropped).  So an error exit of an in-memory method must either precede every
+    mutation of the store, or be one of the tabled duplicate-key exits (`insert(..)` returned the previous value), which the
+    protocol layer makes unreachable (fresh version id; the parent is the latest version, which has no child: S-CAS + Inv).
+    Any other failure after a mutation is a refused request that changed state (C18), a latest pointer naming a version
+    that was never stored (C01), and a failure mode the SQLite back end does not have (C13)."""
+    n = 0
+    for mth in WD.ALL_METHODS:
+        b = W.impl_method("inmemory", mth)
+        g = W.gea(b)
+        ops, stores = E.inmem_summary(W, b)
+        mut = sorted({o.bb for o in ops if o.write and o.method != "get_mut"} | {s.site[0] for s in stores if not is_flag_store(W, s)})
+        k = 0
+        seen = {}
+        for site, rt, val, kind in exit_kinds(W, b, lambda t: "err" if is_error_exit(t) else "ok"):
+            if kind != "err":
+                continue
+            if site not in seen:
+                seen[site] = k
+                k += 1
+            dup = any(a[0] == "VARIANT" and a[1][0] == "call" and a[1][1] == E.HM + "insert" and vs == frozenset(["ok"]) for a, vs in val.items())
+            after = []
+            for mb in mut:
+                starts = set()
+                for st in g.states_at_block(mb):
+                    starts |= g.edges.get(st, set())
+                if any(x[0] == site[0] for x in g.forward(starts)):
+                    after.append(mb)
+            n += 1
+            rep.ob(rule, (short_fn(b), "error-exit#%d" % seen[site], "before-any-mutation-or-duplicate-key"), not after or dup,
+                   "error exit at line %d is %s%s" % (exit_line(b, site), "reachable after the mutation(s) at line(s) %s" % [b.line_of_block(x) for x in after] if after else "not preceded by a mutation",
+                                                       " under a duplicate-key insert (tabled: unreachable from the protocol layer)" if dup and after else ""),
+                   where(b, line=exit_line(b, site)))
+    rep.floor(rule, "in-memory error exits examined", n, 5)
+
+
+# --------------------------------------------------------------------------- S-OKAFTER
+def s_okafter(rep, W, rule="S-OKAFTER"):
+    """A storage method that returns Ok has done its work: on the SQLite side every statement of the method was executed
+    successfully on every path to an Ok return; on the in-memory side every map write is passed by every Ok return.  (The twin
+    of S-FAILMODES: a new *success* exit that skips the write acknowledges something that was not stored.)"""
+    if getattr(rep, "_okafter_done", None) == rep.tag:
+        return
+    rep._okafter_done = rep.tag
+    ss, un, uc, inst = sql_world(W)
+    n = 0
+    for mth in WD.ALL_METHODS:
+        b = W.impl_method("sqlite", mth)
+        g = W.gea(b)
+        pv = W.prov(b)
+        oks = [site for site, term in exits(W, b) if not is_error_exit(term)]
+        for i in inst:
+            if i.stmt is None or i.owner.key != b.key or i.site.body.key != b.key or i.stmt["verb"] == "SELECT":
+                continue        # (a SELECT's rows are the method's result: it cannot be skipped unnoticed -- C01.KEY / C11.READ)
+            n += 1
+            atom = variant_atom(pv.def_term((i.site.bb, "T")))
+            rep.ob(rule, ("sqlite", mth, i.stmt["verb"] + ":" + str(i.stmt.get("table"))), all(all_vals(g, s_, ("is", atom, "ok")) for s_ in oks),
+                   "sqlite %s returns Ok only after its %s on %s succeeded" % (mth, i.stmt["verb"], i.stmt.get("table")), i.where(), nontrivial=False)
+        mb = W.impl_method("inmemory", mth)
+        gm = W.gea(mb)
+        ops, _stores = E.inmem_summary(W, mb)
+        moks = [site for site, term in exits(W, mb) if not is_error_exit(term)]
+        for o in ops:
+            if not o.write or o.method == "get_mut":
+                continue
+            n += 1
+            rep.ob(rule, ("inmemory", mth, "%s.%s" % (o.logical, o.method)), not any(avoids_block_reaching(gm, o.bb, s_[0], lambda v: True) for s_ in moks),
+                   "in-memory %s returns Ok only after %s.%s" % (mth, o.logical, o.method), where(mb, o.bb), nontrivial=False)
+    rep.floor(rule, "statements / map writes examined", n, 8)
+
+
+# --------------------------------------------------------------------------- S-FAILMODES
+STORAGE_FAIL_TABLE = {
+    "new_client": {"callee-failed", "record-exists"},
+    "set_snapshot": {"callee-failed", "record-absent"},
+    "add_version": {"callee-failed", "record-absent", "duplicate-key"},
+    "get_client": {"callee-failed"},
+    "get_snapshot_data": {"callee-failed", "record-absent", "no-snapshot", "version-mismatch"},
+    "get_version_by_parent": {"callee-failed"},
+    "get_version": {"callee-failed"},
+    "commit": {"callee-failed"},
+    "txn": {"callee-failed"},
+}
+_EXTERNAL_FALLIBLE = ("rusqlite::", "std::sync::", "anyhow::")
+
+
+def failure_reasons(val, layer):
+    """The reasons, among the tabled ones, for which a path with condition `val` fails."""
+    out = set()
+    for a, vs in val.items():
+        if len(vs) != 1:
+            continue
+        v = next(iter(vs))
+        if a[0] == "VARIANT" and a[1][0] == "call":
+            c = a[1][1]
+            if layer == "op":
+                if v == "err" and (c == WD.T_TXN or c.startswith(WD.STORAGE_TXN + "::")):
+                    out.add("storage-failed")
+            else:
+                if v == "err" and c.startswith(_EXTERNAL_FALLIBLE):
+                    out.add("callee-failed")
+                if v == "err" and c in (E.HM + "get", E.HM + "get_mut"):
+                    out.add("record-absent")
+                if v == "ok" and c == E.HM + "insert":
+                    out.add("duplicate-key")
+                if v == "ok" and c in (E.HM + "get", E.HM + "get_mut"):
+                    out.add("record-exists")        # `if self.client().is_some() { bail }` in new_client
+        elif a[0] == "VARIANT" and v == "err":
+            t = a[1]
+            if layer == "op" and t[0] == "ok" and t[1][0] == "call" and t[1][1] == WD.tm("get_client"):
+                out.add("no-such-client")
+            if layer != "op" and t[0] == "field" and t[2] == "snapshot":
+                out.add("no-snapshot")
+        elif a[0] == "PRED" and v is True and a[1].endswith("::contains_key") and layer != "op":
+            out.add("record-exists")
+        elif a[0] == "EQ" and v is False and layer != "op" and any(x[0] == "param" for x in a[1:3]):
+            out.add("version-mismatch")
+    return out
+
+
+def s_failmodes(rep, W, rule="S-FAILMODES"):
+    """No failure mode beyond the tabled ones, below the HTTP layer.  The statements quantify over every request and payload
+    ("accepted exactly when ..", "every payload up to the size limit", "the same history gives the same responses on every
+    back end"), so a request may fail inside the library only because storage failed or the client is unknown, and a storage
+    method only because its engine failed or for the tabled record conditions (client absent / already there, duplicate
+    key, snapshot absent or of another version).  An error exit under any other path condition -- a size cap, a rejected id
+    value, a state-dependent refusal -- is a new way for a valid request to be answered 500."""
+    n = 0
+    for opn in ("add_version", "get_child_version", "add_snapshot", "get_snapshot"):
+        b = W.op(opn)
+        bad = []
+        for site, rt, val, kind in exit_kinds(W, b, lambda t: "err" if is_error_exit(t) else "ok"):
+            if kind != "err":
+                continue
+            n += 1
+            if not failure_reasons(val, "op"):
+                bad.append((exit_line(b, site), G.show_val(val)[:160]))
+        rep.ob(rule, (short_fn(b), "error-exits-tabled"), not bad,
+               "Server::%s fails only when a storage call failed or the client is unknown; other failing paths: %s" % (opn, bad[:2] or "none"),
+               where(b, line=bad[0][0]) if bad else where(b))
+    impls = [(be, mth, W.impl_method(be, mth)) for be in ("sqlite", "inmemory") for mth in WD.ALL_METHODS]
+    impls += [(be, "txn", W.impl_storage_txn(be)) for be in ("sqlite", "inmemory")]
+    for be, mth, b in impls:
+        bad = []
+        for site, rt, val, kind in exit_kinds(W, b, lambda t: "err" if is_error_exit(t) else "ok"):
+            if kind != "err":
+                continue
+            n += 1
+            if not (failure_reasons(val, "storage") & STORAGE_FAIL_TABLE[mth]):
+                bad.append((exit_line(b, site), G.show_val(val)[:160]))
+        rep.ob(rule, (be, mth, "error-exits-tabled"), not bad,
+               "%s %s fails only for: %s; other failing paths: %s" % (be, mth, sorted(STORAGE_FAIL_TABLE[mth]), bad[:2] or "none"),
+               where(b, line=bad[0][0]) if bad else where(b))
+    # row-mapping closures of the SQLite back end: a row fails to map only because a column read failed
+    for b in W.prog.bodies.values():
+        if b.unit != WD.SQLITE + "-lib" or b.kind != "Closure":
+            continue
+        bad = []
+        for site, rt, val, kind in exit_kinds(W, b, lambda t: "err" if is_error_exit(t) else "ok"):
+            if kind != "err":
+                continue
+            n += 1
+            if "callee-failed" not in failure_reasons(val, "storage"):
+                bad.append((exit_line(b, site), G.show_val(val)[:160]))
+        if bad:
+            rep.fail(rule, ("sqlite", short_fn(b), "closure-error-exits-tabled"),
+                     "a closure of the SQLite back end fails under a condition other than a failed rusqlite call: %s" % bad[:2], where(b, line=bad[0][0]))
+    rep.floor(rule, "error exits examined", n, 25)
 
 
 # --------------------------------------------------------------------------- S-TXN2
@@ -1023,6 +1271,7 @@ def s_readonly_op(rep, W, opname, rule="S-READONLY"):
 # --------------------------------------------------------------------------- C01.KEY
 def c01_key(rep, W, rule="C01.KEY"):
     ss, un, uc, inst = sql_world(W)
+    s_okafter(rep, W)
     # ---- sqlite writer
     sb = W.impl_method("sqlite", "add_version")
     fn = short_fn(sb)
@@ -1136,6 +1385,15 @@ def c01_key(rep, W, rule="C01.KEY"):
     ls = [s for s in stores if s.target[0] == "field" and s.target[2] == "latest_version_id"]
     okl = len(ls) == 1 and m(("param", 2, ANY), ls[0].value) is not None and \
         m(("ok", call(E.HM + "get_mut", ("field", self_field("guard"), ANY), cid)), ls[0].target[1]) is not None
+    # every Ok return has done all three (a success exit that skips the writes acknowledges a version that was not stored)
+    gm = W.gea(mb)
+    for site, term in exits(W, mb):
+        if is_error_exit(term):
+            continue
+        skipped = [what for what, bbs in (("children.insert", [o.bb for o in ci]), ("versions.insert", [o.bb for o in vi]), ("latest store", [s.site[0] for s in ls]))
+                   if not bbs or any(avoids_block_reaching(gm, b_, site[0], lambda v: True) for b_ in bbs)]
+        rep.ob(rule, (fnm, "ok-after-all-writes"), not skipped, "an Ok return of the in-memory add_version can be reached without: %s" % (skipped or "nothing -- all writes are passed"),
+               where(mb, line=exit_line(mb, site)))
     rep.ob(rule, (fnm, "latest-moved"), okl, "latest pointer store: %s := %s" % (P.show(ls[0].target) if ls else None, P.show(ls[0].value) if ls else None), where(mb))
     # ---- in-memory readers
     rb = W.impl_method("inmemory", "get_version_by_parent")
@@ -1822,6 +2080,7 @@ def c10(rep, W, rule="C10"):
 # =========================================================================== C11
 def c11(rep, W, rule="C11"):
     ss, un, uc, inst = sql_world(W)
+    s_okafter(rep, W)
     # ---- WRITE (sqlite)
     sb = W.impl_method("sqlite", "set_snapshot")
     fn = short_fn(sb)
@@ -2211,13 +2470,7 @@ def c12_max(rep, W, rule="C12.MAX"):
         else:
             rep.fail(rule, (fn, "snapshot-known"), "accepted outcome under an undetermined snapshot presence", where(body, line=ln))
     rep.floor(rule, "accepted outcomes examined", n, 2, where(body))
-    # Server::new stores the configuration it is given
-    nb = W.body(WD.SERVER_TY + "::new")
-    okn = False
-    for site, term in exits(W, nb):
-        mm = m(pat.adt("Server", "Server", ("config", ("param", 1, ANY)), ("storage", ANY)), term)
-        okn = okn or mm is not None
-    rep.ob(rule, (short_fn(nb), "stores-config"), okn, "Server::new stores its config parameter in Server.config (the value the urgency functions read)", where(nb))
+    c12_stores_config(rep, W, rule)
     # enum order None < Low < High, derived Ord
     su = W.prog.adt("server::SnapshotUrgency")
     order = [v["name"] for v in su["variants"]] if su else []
@@ -2225,6 +2478,36 @@ def c12_max(rep, W, rule="C12.MAX"):
     ordb = W.prog.body("<%s::server::SnapshotUrgency as core::cmp::Ord>::cmp" % WD.CORE)
     okd = ordb is not None and [t["callee"].get("def") for _, t in ordb.calls()].count("core::intrinsics::discriminant_value") == 2
     rep.ob(rule, ("SnapshotUrgency", "derived-Ord"), okd, "Ord::cmp compares discriminants (derive(Ord))", nontrivial=False)
+
+
+def c12_stores_config(rep, W, rule="C12.MAX"):
+    # Server::new stores the configuration it is given
+    nb = W.body(WD.SERVER_TY + "::new")
+    okn = False
+    for site, term in exits(W, nb):
+        # (further fields of Server are not this obligation's business)
+        if m(pat.adt("Server", "Server", Ellipsis), term) is not None:
+            okn = okn or m(("param", 1, ANY), dict(term[2]).get("config", ("unknown",))) is not None
+    rep.ob(rule, (short_fn(nb), "stores-config"), okn, "Server::new stores its config parameter in Server.config (the value the urgency functions read)", where(nb))
+
+
+def c17_targets(rep, W, rule="C17.TARGETS"):
+    """"applies the given snapshot targets when requesting snapshots", the part below main(): the ServerConfig handed to
+    Server::new is stored unchanged, and the two classifiers are given that stored config (or its own field) at every call
+    in the AddVersion operation.  (What the classifiers compute from the target is C12's.)"""
+    c12_stores_config(rep, W, rule)
+    body = W.op("add_version")
+    pv = W.prov(body)
+    cfg = ("field", ("param", 1, ANY), "config")
+    n = 0
+    for fname, fld in (("for_days", "snapshot_days"), ("for_versions_since", "snapshot_versions")):
+        for bb, t in sites_of(body, WD.CORE + "::server::SnapshotUrgency::" + fname):
+            a0 = pv.arg_terms(bb)[0]
+            n += 1
+            rep.ob(rule, (short_fn(body), fname, "target-from-stored-config", ordinal_key(body, WD.CORE + "::server::SnapshotUrgency::" + fname, bb)),
+                   m(pat.OneOf(cfg, ("field", cfg, fld)), a0) is not None,
+                   "%s is given %s as its target (required: self.config or self.config.%s)" % (fname, P.show(a0)[:80], fld), where(body, bb))
+    rep.floor(rule, "classifier call sites in Server::add_version", n, 2, where(body))
 
 
 # =========================================================================== C05
